@@ -97,6 +97,7 @@ pub fn check(c: &Case, obs: &mut Obs) -> Verdict {
     obs.class(&format!("securities_{}", tickers.len().min(6)));
     // per-security projections
     let mut sum_gain: BTreeMap<u16, (Rat, Rat, Rat, usize, Rat, Rat)> = BTreeMap::new();
+    let mut f17 = false;
     for tk in &tickers {
         let only: Vec<Tx> = ledger.iter().filter(|t| &t.ticker == tk).cloned().collect();
         let solo = match tool::calc(&only) {
@@ -112,6 +113,13 @@ pub fn check(c: &Case, obs: &mut Obs) -> Verdict {
         }
         for (da, db) in a.iter().zip(b.iter()) {
             if let Err(e) = tool::disposals_equivalent(da, db, obs) {
+                // F17: removing the other securities' lines can make this security's same-day
+                // sales adjacent, which changes how the day's gain is split over the legs
+                let mut scratch = Obs::default();
+                if (tool::has_nonadjacent_unequal_sells(ledger) || tool::has_nonadjacent_unequal_sells(&only)) && tool::disposals_equivalent_mode(da, db, &mut scratch, true).is_ok() {
+                    f17 = true;
+                    continue;
+                }
                 return Verdict::fail(format!("{tk}: disposal differs between combined ledger and the security alone: {e}\n{}", crate::led::to_dsl(ledger)));
             }
         }
@@ -206,6 +214,9 @@ pub fn check(c: &Case, obs: &mut Obs) -> Verdict {
             }
             o => return Verdict::fail(format!("{name} input with mixed-case tickers: {}", o.describe())),
         }
+    }
+    if f17 {
+        return tool::f17_verdict();
     }
     Verdict::Pass
 }
